@@ -570,6 +570,11 @@ func (s *Session) onPreprocess(resp *Response, req *Request) (continueProcess bo
 		if err2 != nil {
 			resp.Status = err2.Error()
 		}
+		if s.authMode == auth.DigestAuth {
+			// a wrong digest response has just replaced the nonce: challenge with the
+			// nonce the next request is checked against, not with the one just retired
+			resp.SetDigestAuth(realm, s.nonce)
+		}
 		err = s.response(resp)
 		return false, err
 	}
